@@ -118,6 +118,10 @@ def check_path(pt, path, st):
             probs.append((f"conn.{attr} should be None when no {attr} is given ({tagof(v)})", None))
     if not st.utc:
         probs.append(("SET TimeZone = 'UTC' not executed on this path", None))
+    for key, (ine, orr, bsite) in st.bootstrap_flags.items():
+        if orr or not ine:
+            probs.append((f"bootstrap statement for {key} is {'CREATE OR REPLACE' if orr else 'a plain CREATE'}: the bootstrap runs every time an existing "
+                          f"database file is attached, so it must be IF NOT EXISTS — otherwise attaching destroys the stored metadata (or fails)", None))
     if st.created_db:
         need = {"TABLE:information_schema._fs_tables_ext", "TABLE:information_schema._fs_columns_ext",
                 "VIEW:information_schema._fs_columns_snowflake", "VIEW:information_schema.databases",
